@@ -175,3 +175,370 @@ theorem calcLine_currency (cur : String) (c : Nat) (rates : List XRate) (l l' : 
           rw [← ht, hC.2, hD.2]
 
 end GoblVerif.Calc
+
+namespace GoblVerif.Calc
+
+/-! ### exponents of running totals (any rule) -/
+
+theorem lineDiscounts_exp (r : Rule) (c : ℕ) (sum : Amount) (ds : List LineAdj) (total : Amount) :
+    (lineDiscounts exactOps r c sum ds total).2.exp = total.exp := by
+  induction ds generalizing total with
+  | nil => rfl
+  | cons d ds ih =>
+    simp only [lineDiscounts]
+    rw [ih]
+    rfl
+
+theorem lineCharges_exp (r : Rule) (c : ℕ) (qty sum : Amount) (ds : List LineAdj) (total : Amount) :
+    (lineCharges exactOps r c qty sum ds total).2.exp = total.exp := by
+  induction ds generalizing total with
+  | nil => rfl
+  | cons d ds ih =>
+    simp only [lineCharges]
+    rw [ih]
+    rfl
+
+/-- under the currency rule every calculated line total sits at the currency's exponent (no guard needed) -/
+theorem calcLine_currency_total_exp (cur : String) (c : Nat) (rates : List XRate) (l l' : Line)
+    (h : calcLine exactOps cur c rates .currency l = .ok l') (hclean : l.total = none)
+    (t : Amount) (ht : l'.total = some t) : t.exp = c := by
+  unfold calcLine at h
+  cases hit : l.item with
+  | none => simp only [hit] at h; cases h; rw [hclean] at ht; cases ht
+  | some it0 =>
+    simp only [hit] at h
+    cases hbd : calcSubLines exactOps cur c rates .currency l.breakdown with
+    | error e => simp [hbd] at h
+    | ok bd =>
+      simp only [hbd] at h
+      split at h
+      · cases h; simp at ht
+      · split at h
+        · simp at h
+        · injection h with h
+          subst h
+          simp only at ht
+          injection ht with ht
+          rw [← ht, lineCharges_exp, lineDiscounts_exp]
+          exact applyRule_currency_exp c _
+
+theorem calcLines_currency_total_exp (cur : String) (c : Nat) (rates : List XRate) (ls out : List Line)
+    (h : calcLines exactOps cur c rates .currency ls = .ok out) (hclean : ∀ l ∈ ls, l.total = none) :
+    ∀ t ∈ out.filterMap (·.total), t.exp = c := by
+  induction ls generalizing out with
+  | nil => simp [calcLines] at h; subst h; simp
+  | cons l ls ih =>
+    unfold calcLines at h
+    cases h1 : calcLine exactOps cur c rates .currency l with
+    | error e => simp [h1] at h
+    | ok l' =>
+      simp only [h1] at h
+      cases h2 : calcLines exactOps cur c rates .currency ls with
+      | error e => simp [h2] at h
+      | ok ls' =>
+        simp only [h2] at h
+        injection h with h
+        subst h
+        intro t ht
+        simp only [List.filterMap_cons] at ht
+        cases hl : l'.total with
+        | none =>
+          simp only [hl] at ht
+          exact ih ls' h2 (fun x hx => hclean x (by simp [hx])) t ht
+        | some t0 =>
+          simp only [hl, List.mem_cons] at ht
+          rcases ht with rfl | ht
+          · exact calcLine_currency_total_exp cur c rates l l' h1 (hclean l (by simp)) t hl
+          · exact ih ls' h2 (fun x hx => hclean x (by simp [hx])) t ht
+
+/-- document discounts / charges under the currency rule: every amount at the currency's exponent -/
+theorem docAdj_currency_exp (c : ℕ) (sum : Amount) (d : DocAdj) :
+    (docAdj exactOps .currency c sum d).amount.exp = c := by
+  unfold docAdj
+  simp [applyRule]
+
+theorem adjSum_currency (c : ℕ) (ds : List DocAdj) (h : ∀ d ∈ ds, d.amount.exp = c) (s : Amount)
+    (hs : adjSum exactOps c ds = some s) : s = ⟨(ds.map (·.amount.value)).sum, c⟩ := by
+  unfold adjSum at hs
+  split at hs
+  · simp at hs
+  · injection hs with hs
+    rw [← hs, foldl_accum_same c _ ⟨0, c⟩ rfl (by
+      intro x hx
+      simp only [List.mem_map] at hx
+      obtain ⟨d, hd, rfl⟩ := hx
+      exact h d hd)]
+    simp [List.map_map, Function.comp_def]
+
+end GoblVerif.Calc
+
+namespace GoblVerif.Calc
+
+/-! ### the tax summary under the currency rule -/
+
+/-- every base of every group sits at the currency's exponent -/
+def BasesAtC (c : ℕ) (cats : List CatTotal) : Prop := ∀ ct ∈ cats, ∀ rt ∈ ct.rates, rt.base.exp = c
+
+theorem addToRates_currency (c : ℕ) (cb : Combo) (t : Amount) (rts : List RateTotal)
+    (h : ∀ rt ∈ rts, rt.base.exp = c) : ∀ rt ∈ addToRates exactOps .currency c cb t rts, rt.base.exp = c := by
+  induction rts with
+  | nil =>
+    intro rt hrt
+    simp only [addToRates, List.mem_singleton] at hrt
+    subst hrt
+    simp [newRate, mrp]
+  | cons x xs ih =>
+    simp only [addToRates]
+    split
+    · intro rt hrt
+      simp only [List.mem_cons] at hrt
+      rcases hrt with rfl | hrt
+      · simp [mrp, h x (by simp)]
+      · exact h rt (by simp [hrt])
+    · intro rt hrt
+      simp only [List.mem_cons] at hrt
+      rcases hrt with rfl | hrt
+      · exact h rt (by simp)
+      · exact ih (fun y hy => h y (by simp [hy])) rt hrt
+
+theorem addToCats_currency (c : ℕ) (cb : Combo) (t : Amount) (cats : List CatTotal)
+    (h : BasesAtC c cats) : BasesAtC c (addToCats exactOps .currency c cb t cats) := by
+  induction cats with
+  | nil =>
+    intro ct hct
+    simp only [addToCats, List.mem_singleton] at hct
+    subst hct
+    exact addToRates_currency c cb t [] (by simp)
+  | cons x xs ih =>
+    simp only [addToCats]
+    split
+    · intro ct hct
+      simp only [List.mem_cons] at hct
+      rcases hct with rfl | hct
+      · exact addToRates_currency c cb t x.rates (h x (by simp))
+      · exact h ct (by simp [hct])
+    · intro ct hct
+      simp only [List.mem_cons] at hct
+      rcases hct with rfl | hct
+      · exact h ct (by simp)
+      · exact ih (fun y hy => h y (by simp [hy])) ct hct
+
+theorem baseRateTotals_currency (c : ℕ) (rows : List Row) : BasesAtC c (baseRateTotals exactOps .currency c rows) := by
+  unfold baseRateTotals
+  have key : ∀ (rows : List Row) (cats : List CatTotal), BasesAtC c cats →
+      BasesAtC c (rows.foldl (fun cats rw => rw.taxes.foldl (fun cats cb => addToCats exactOps .currency c cb rw.total cats) cats) cats) := by
+    intro rows
+    induction rows with
+    | nil => intro cats h; exact h
+    | cons rw rows ih =>
+      intro cats h
+      rw [List.foldl_cons]
+      apply ih
+      have inner : ∀ (cbs : List Combo) (cats : List CatTotal), BasesAtC c cats →
+          BasesAtC c (cbs.foldl (fun cats cb => addToCats exactOps .currency c cb rw.total cats) cats) := by
+        intro cbs
+        induction cbs with
+        | nil => intro cats h; exact h
+        | cons cb cbs ih2 => intro cats h; rw [List.foldl_cons]; exact ih2 _ (addToCats_currency c cb rw.total cats h)
+      exact inner rw.taxes cats h
+  exact key rows [] (fun _ h => by simp at h)
+
+/-- the integer value a group contributes to its category amount -/
+def taxedValue (rt : RateTotal) : Int := match rt.percent with | none => 0 | some _ => rt.amount.value
+
+/-- the integer value a group contributes to its category surcharge -/
+def surchargeValue (rt : RateTotal) : Int :=
+  match rt.percent, rt.surcharge with
+  | some _, some (_, sa) => sa.value
+  | _, _ => 0
+
+theorem rateAmounts_currency (c : ℕ) (rt : RateTotal) (h : rt.base.exp = c) :
+    (rateAmounts exactOps rt c).amount.exp = c ∧ (rateAmounts exactOps rt c).base = rt.base ∧
+    (∀ sp sa, (rateAmounts exactOps rt c).percent.isSome → (rateAmounts exactOps rt c).surcharge = some (sp, sa) → sa.exp = c) := by
+  unfold rateAmounts
+  cases hp : rt.percent with
+  | none => simp
+  | some p =>
+    simp only [pctOf_exp, h, true_and]
+    intro sp sa _ hs
+    cases hsr : rt.surcharge with
+    | none => simp [hsr] at hs
+    | some x =>
+      simp only [hsr, Option.map_some, Option.some.injEq, Prod.mk.injEq] at hs
+      rw [← hs.2]; exact h
+
+theorem amountFold_currency (c : ℕ) (rates : List RateTotal) (z : Amount) (hz : z.exp = c)
+    (hr : ∀ rt ∈ rates, rt.amount.exp = c) :
+    rates.foldl (fun a rt =>
+        match rt.percent with
+        | none => a
+        | some _ => add exactOps (mrp .currency a rt.amount) rt.amount) z
+      = ⟨z.value + (rates.map taxedValue).sum, c⟩ := by
+  induction rates generalizing z with
+  | nil => cases z; simp at hz; simp [hz]
+  | cons rt rates ih =>
+    rw [List.foldl_cons]
+    have hrc := hr rt (by simp)
+    cases hp : rt.percent with
+    | none =>
+      simp only [hp]
+      refine (ih z hz (fun x hx => hr x (by simp [hx]))).trans ?_
+      simp [taxedValue, hp]
+    | some p =>
+      simp only [hp]
+      have hstep : add exactOps (mrp .currency z rt.amount) rt.amount = ⟨z.value + rt.amount.value, z.exp⟩ := by
+        simp only [mrp]
+        exact add_same _ _ (by rw [hrc, hz])
+      rw [hstep]
+      refine (ih _ (by simpa using hz) (fun x hx => hr x (by simp [hx]))).trans ?_
+      simp only [List.map_cons, List.sum_cons, taxedValue, hp]
+      congr 1
+      omega
+
+theorem surchargeFold_currency (c : ℕ) (rates : List RateTotal) (z : Option Amount) (hz : ∀ x, z = some x → x.exp = c)
+    (hr : ∀ rt ∈ rates, ∀ sp sa, rt.percent.isSome → rt.surcharge = some (sp, sa) → sa.exp = c) :
+    ∀ s, rates.foldl (fun (s : Option Amount) rt =>
+        match rt.percent, rt.surcharge with
+        | some _, some (_, sa) =>
+          let x := s.getD ⟨0, c⟩
+          some (add exactOps (mrp .currency x sa) sa)
+        | _, _ => s) z = some s →
+      s = ⟨(match z with | some x => x.value | none => 0) + (rates.map surchargeValue).sum, c⟩ := by
+  induction rates generalizing z with
+  | nil =>
+    intro s hs
+    simp only [List.foldl_nil] at hs
+    subst hs
+    have := hz s rfl
+    cases s; simp at this; simp [this]
+  | cons rt rates ih =>
+    intro s hs
+    rw [List.foldl_cons] at hs
+    cases hp : rt.percent with
+    | none =>
+      simp only [hp] at hs
+      have := ih z hz (fun x hx => hr x (by simp [hx])) s hs
+      rw [this]; simp [surchargeValue, hp]
+    | some p =>
+      cases hsr : rt.surcharge with
+      | none =>
+        simp only [hp, hsr] at hs
+        have := ih z hz (fun x hx => hr x (by simp [hx])) s hs
+        rw [this]; simp [surchargeValue, hp, hsr]
+      | some x =>
+        obtain ⟨sp, sa⟩ := x
+        simp only [hp, hsr] at hs
+        have hsa : sa.exp = c := hr rt (by simp) sp sa (by simp [hp]) hsr
+        have hx : (z.getD ⟨0, c⟩).exp = c := by
+          cases z with
+          | none => rfl
+          | some y => exact hz y rfl
+        have hstep : add exactOps (mrp .currency (z.getD ⟨0, c⟩) sa) sa =
+            ⟨(z.getD ⟨0, c⟩).value + sa.value, (z.getD ⟨0, c⟩).exp⟩ := by
+          simp only [mrp]
+          exact add_same _ _ (by rw [hsa, hx])
+        rw [hstep] at hs
+        have := ih (some ⟨(z.getD ⟨0, c⟩).value + sa.value, (z.getD ⟨0, c⟩).exp⟩)
+          (by intro y hy; injection hy with hy; rw [← hy]; exact hx) (fun x hx => hr x (by simp [hx])) s hs
+        rw [this]
+        simp only [List.map_cons, List.sum_cons, surchargeValue, hp, hsr]
+        congr 1
+        cases z <;> simp <;> omega
+
+/-- **category sums under the currency rule**: amounts and surcharges of a
+category are the plain integer sums of its groups' figures, everything at the
+currency's exponent -/
+theorem catAmounts_currency (c : ℕ) (ct : CatTotal) (h : ∀ rt ∈ ct.rates, rt.base.exp = c) :
+    let ct' := catAmounts exactOps .currency c ct
+    (∀ rt ∈ ct'.rates, rt.base.exp = c ∧ rt.amount.exp = c) ∧
+    ct'.amount = ⟨(ct'.rates.map taxedValue).sum, c⟩ ∧
+    (∀ s, ct'.surcharge = some s → s = ⟨(ct'.rates.map surchargeValue).sum, c⟩) := by
+  have hrates : ∀ rt ∈ ct.rates.map (rateAmounts exactOps · c), rt.base.exp = c ∧ rt.amount.exp = c := by
+    intro rt hrt
+    simp only [List.mem_map] at hrt
+    obtain ⟨x, hx, rfl⟩ := hrt
+    have := rateAmounts_currency c x (h x hx)
+    exact ⟨by rw [this.2.1]; exact h x hx, this.1⟩
+  have hsur : ∀ rt ∈ ct.rates.map (rateAmounts exactOps · c), ∀ sp sa, rt.percent.isSome → rt.surcharge = some (sp, sa) → sa.exp = c := by
+    intro rt hrt
+    simp only [List.mem_map] at hrt
+    obtain ⟨x, hx, rfl⟩ := hrt
+    exact (rateAmounts_currency c x (h x hx)).2.2
+  refine ⟨hrates, ?_, ?_⟩
+  · simp only [catAmounts]
+    refine (amountFold_currency c _ ⟨0, c⟩ rfl (fun rt hrt => (hrates rt hrt).2)).trans ?_
+    simp
+  · intro s hs
+    simp only [catAmounts] at hs
+    have := surchargeFold_currency c _ none (by simp) hsur s hs
+    rw [this]
+    simp [catAmounts]
+
+end GoblVerif.Calc
+
+namespace GoblVerif.Calc
+
+/-- signed contribution of a category to the tax sum -/
+def catSigned (ct : CatTotal) : Int :=
+  let v := ct.amount.value + (match ct.surcharge with | some s => s.value | none => 0)
+  if ct.retained then -v else v
+
+theorem finalSum_currency (c : ℕ) (cats : List CatTotal)
+    (h : ∀ ct ∈ cats, ct.amount.exp = c ∧ ∀ s, ct.surcharge = some s → s.exp = c) :
+    finalSum exactOps .currency c cats = ⟨(cats.map catSigned).sum, c⟩ := by
+  unfold finalSum
+  have key : ∀ (cats : List CatTotal) (z : Amount), z.exp = c →
+      (∀ ct ∈ cats, ct.amount.exp = c ∧ ∀ s, ct.surcharge = some s → s.exp = c) →
+      cats.foldl (fun s ct =>
+        let s1 := mrp .currency s ct.amount
+        if ct.retained then
+          let s2 := sub exactOps s1 ct.amount
+          match ct.surcharge with | some x => sub exactOps s2 x | none => s2
+        else
+          let s2 := add exactOps s1 ct.amount
+          match ct.surcharge with | some x => add exactOps s2 x | none => s2) z
+        = ⟨z.value + (cats.map catSigned).sum, c⟩ := by
+    intro cats
+    induction cats with
+    | nil => intro z hz _; cases z; simp at hz; simp [hz]
+    | cons ct cts ih =>
+      intro z hz hc
+      rw [List.foldl_cons]
+      obtain ⟨ha, hs⟩ := hc ct (by simp)
+      have hrest := fun x hx => hc x (List.mem_cons_of_mem ct hx)
+      have hstep : (let s1 := mrp .currency z ct.amount
+          if ct.retained then
+            let s2 := sub exactOps s1 ct.amount
+            match ct.surcharge with | some x => sub exactOps s2 x | none => s2
+          else
+            let s2 := add exactOps s1 ct.amount
+            match ct.surcharge with | some x => add exactOps s2 x | none => s2) = ⟨z.value + catSigned ct, c⟩ := by
+        simp only [mrp, catSigned]
+        cases hr : ct.retained with
+        | true =>
+          simp only [if_true]
+          rw [sub_same _ _ (by rw [ha, hz])]
+          cases hsc : ct.surcharge with
+          | none => simp [hz]; omega
+          | some x =>
+            simp only
+            rw [sub_same _ _ (by simp [hs x hsc, hz])]
+            simp [hz]; omega
+        | false =>
+          simp only [Bool.false_eq_true, if_false]
+          rw [add_same _ _ (by rw [ha, hz])]
+          cases hsc : ct.surcharge with
+          | none => simp [hz]
+          | some x =>
+            simp only
+            rw [add_same _ _ (by simp [hs x hsc, hz])]
+            simp [hz]; omega
+      rw [hstep]
+      refine (ih _ rfl hrest).trans ?_
+      simp only [List.map_cons, List.sum_cons]
+      congr 1
+      omega
+  refine (key cats ⟨0, c⟩ rfl h).trans ?_
+  simp
+
+end GoblVerif.Calc
